@@ -16,14 +16,14 @@ import Darling.Props.C10Spec2
       Values, the two arity errors and delegated / located errors are pinned exactly; where the text
       only says "an error" the specification says `IsErr`.
   §2  `fromMeta_meets_spec_partial`: `Demands e m ((enumHooks e).fromMeta m)` for all `e`, `m`, under
-      `Unambiguous e` (discrepancy D2), `InputParses e m` (discrepancy D1), `PlainStructVariants e`
-      (modelling artefact, discharged for every assembled receiver in §6).
+      `Unambiguous e` (discrepancy D2) and `PlainStructVariants e` (modelling artefact, discharged for
+      every assembled receiver in §6).
   §3  `Produces e m x` — every way the text lets an input produce a value; `ok_sound` (no
       hypothesis: nothing else produces a value), `ok_complete_partial`, `ok_iff_partial`.
   §4  `Demands.determines`: the specification pins the result (up to the identity of the errors the
       text leaves unnamed).
   §5  `produced_by_declared_unskipped` (no hypothesis), `bare_word_ok_iff`, `absent_iff`,
-      `list_none`, `list_more`; `unambiguous_of_nodup`, `inputParses_of`.
+      `list_none`, `list_more`; `unambiguous_of_nodup`.
   §6  `assembled_enum`, `assembled_value_origin`, `assembled_meets_spec_partial`: the receiver `Env`
       assembles from a derive result.
   §7  derive time: `renameGiven`/`skipGiven`/`wordGiven`/`ruleGiven`, `explicitRename`, `markedSkip`,
@@ -33,14 +33,16 @@ import Darling.Props.C10Spec2
   §8  the two discrepancies as concrete inputs (`Ex.dupE…`, `Ex.svE…`), and non-vacuity of every
       hypothesis (`Ex.okE…`, `Ex.enumDecl…`, `Ex.corpus`).
 
-  Discrepancies between the text and the behaviour (both reproduce on the library, see the report):
-    D1  a nested list that fails to parse, addressed to a *struct* variant: the syntax error is not
-        located under the variant's name (`e(sv(a = 1 2))` ↦ "expected `,`"), whereas a newtype
-        variant locates it (`e(nt(a = 1 2))` ↦ "expected `,` at nt").
-    D2  two declared, non-skipped variants with one effective name are accepted by the derive (and
-        rustc is silent about the unreachable arm): the later one can never be produced, and a
-        string / nested word that names a unit variant is refused when a struct variant of the same
-        name comes first.
+  Discrepancies between the text and the behaviour found while writing this file:
+    D1  (REPAIRED in the library and in the model) a nested list that fails to parse, addressed to a
+        *struct* variant: the syntax error was not located under the variant's name
+        (`e(sv(a = 1 2))` ↦ "expected `,`"), whereas a newtype variant located it
+        (`e(nt(a = 1 2))` ↦ "expected `,` at nt").  It now is (`Ex.svE_sv`, `Ex.svE_demands`), and
+        the main theorem no longer needs a side condition on the input.
+    D2  (stands) two declared, non-skipped variants with one effective name are accepted by the
+        derive (and rustc is silent about the unreachable arm): the later one can never be produced,
+        and a string / nested word that names a unit variant is refused when a struct variant of the
+        same name comes first.  `Unambiguous` is the side condition of the `…_partial` theorems.
 -/
 open Derive
 
@@ -235,13 +237,8 @@ theorem finishStruct_loc (s : SStruct ν) (hp : s.post = Outcome.ok) (l : String
 def PlainStructVariants (e : SEnum ν) : Prop :=
   ∀ v ∈ e.variants, ∀ s, v.kind = .struct s → s.post = Outcome.ok
 
-/-- side condition 2 (excludes discrepancy D1): the nested item is not a list that fails to parse
-    addressed to a struct variant -/
-def ParsesFor (v : SVariant ν) (n : Meta) : Prop :=
-  ∀ s p items b ts t sp, v.kind = .struct s → n ≠ .list p items (some b) ts t sp
-
 theorem dataArm_pinned (v : SVariant ν) (hp : ∀ s, v.kind = .struct s → s.post = Outcome.ok) (n : Meta)
-    (hw : ParsesFor v n) (r0 : Outcome ν) (h : itemResult v n = some r0) : dataArm v n = r0 := by
+    (r0 : Outcome ν) (h : itemResult v n = some r0) : dataArm v n = r0 := by
   unfold itemResult at h
   unfold dataArm
   cases hk : v.kind with
@@ -265,7 +262,7 @@ theorem dataArm_pinned (v : SVariant ν) (hp : ∀ s, v.kind = .struct s → s.p
           simp only [Option.some.injEq] at h
           subst h
           cases bad with
-          | some b => exact absurd rfl (hw s q items b ts t sp hk)
+          | some b => rfl
           | none =>
               simp only [structReads, Derive.fromList]
               cases coreLoop s {} items with
@@ -290,13 +287,8 @@ theorem dataArm_unpinned (v : SVariant ν) (n : Meta) (h : itemResult v n = none
       | nameValue _ _ _ _ => exact ⟨_, rfl⟩
       | list q items bad ts t sp => cases h
 
-/-- side condition 2 for a whole input -/
-def InputParses (e : SEnum ν) (m : Meta) : Prop :=
-  ∀ p n ts t sp v, m = .list p [.item n] none ts t sp → Selectable e n.path'.toStr v → ParsesFor v n
-
 /-- the emitted `from_list`, one nested item -/
-theorem fromList_one_demand (e : SEnum ν) (hu : Unambiguous e) (hp : PlainStructVariants e) (n : Meta) (sp : Span)
-    (hw : ∀ v, Selectable e n.path'.toStr v → ParsesFor v n) :
+theorem fromList_one_demand (e : SEnum ν) (hu : Unambiguous e) (hp : PlainStructVariants e) (n : Meta) (sp : Span) :
     ItemDemand e n sp ((enumFromList e [.item n]).mapErr (·.withSpan sp)) := by
   rw [list_one]
   cases ha : e.arm n.path'.toStr with
@@ -308,7 +300,7 @@ theorem fromList_one_demand (e : SEnum ν) (hu : Unambiguous e) (hp : PlainStruc
       constructor
       · intro v r0 hv hr
         have := hu _ v w hv hsel; subst this
-        rw [dataArm_pinned v (fun s hk => hp v hv.1 s hk) n (hw v hv) r0 hr]
+        rw [dataArm_pinned v (fun s hk => hp v hv.1 s hk) n r0 hr]
       · intro hnone
         exact (dataArm_unpinned w n (hnone w hsel)).mapErr _
 
@@ -364,10 +356,10 @@ theorem StringDemand.mapErr {e : SEnum ν} {s : String} {r : Outcome ν} (h : St
   ⟨fun v x hv hx => by rw [h.1 v x hv hx]; rfl, fun hn => (h.2 hn).mapErr f⟩
 
 /-- **the derived `from_meta` of an enum does what the property text demands**, for every enum and
-    every input — under `Unambiguous` (discrepancy D2), `InputParses` (discrepancy D1) and the
-    modelling side condition `PlainStructVariants` -/
-theorem fromMeta_meets_spec_partial (e : SEnum ν) (hu : Unambiguous e) (hp : PlainStructVariants e) (m : Meta)
-    (hw : InputParses e m) : Demands e m ((enumHooks e).fromMeta m) := by
+    every input — under `Unambiguous` (discrepancy D2) and the modelling side condition
+    `PlainStructVariants` -/
+theorem fromMeta_meets_spec_partial (e : SEnum ν) (hu : Unambiguous e) (hp : PlainStructVariants e) (m : Meta) :
+    Demands e m ((enumHooks e).fromMeta m) := by
   cases m with
   | path p =>
       rw [bare_word]
@@ -401,7 +393,7 @@ theorem fromMeta_meets_spec_partial (e : SEnum ν) (hu : Unambiguous e) (hp : Pl
           | [] => rfl
           | [.lit l] => exact ⟨_, rfl⟩
           | [.item n] =>
-              exact fromList_one_demand e hu hp n sp (fun v hv => hw p n ts t sp v rfl hv)
+              exact fromList_one_demand e hu hp n sp
           | a :: b :: rest => rw [list_too_many]; cases a <;> rfl
 
 /-! ## 3. "and nothing else": which inputs produce which values -/
@@ -744,14 +736,6 @@ theorem unambiguous_of_nodup (e : SEnum ν) (h : ((e.variants.filter (fun v => !
   rintro n v w ⟨hv, hvs, hvn⟩ ⟨hw, hws, hwn⟩
   exact nodup_names_aux e.variants h v hv w hw hvs hws (hvn.trans hwn.symm)
 
-/-- `InputParses` holds for every input whose single nested item is not a list that fails to parse -/
-theorem inputParses_of (e : SEnum ν) (m : Meta)
-    (h : ∀ p q items b ts' t' sp' ts t sp, m ≠ .list p [.item (.list q items (some b) ts' t' sp')] none ts t sp) :
-    InputParses e m := by
-  intro p n ts t sp v hm _ s q items b ts' t' sp' _ hn
-  subst hn
-  exact h p q items b ts' t' sp' ts t sp hm
-
 /-! ## 6. the receivers `Env` assembles from a derived declaration -/
 
 theorem bundleErr_ne_ok (errs : List Err) (x : ν) : (Err.bundleErr errs : Outcome ν) ≠ .ok x := by
@@ -881,13 +865,12 @@ theorem assembled_value_origin (env : Env.T) (rh : String → Hooks Val) (r : RF
 
 open Options in
 /-- **end to end on an assembled receiver**: when the effective names of the non-skipped declared
-    variants are pairwise distinct, the receiver does what the text demands on every input that
-    `InputParses` admits -/
+    variants are pairwise distinct, the receiver does what the text demands on every input -/
 theorem assembled_meets_spec_partial (env : Env.T) (rh : String → Hooks Val) (r : RFromMeta) (vs : List RVariant)
     (h : r.base.data = .enum vs) (hnd : ((vs.filter (fun v => !v.skip)).map (·.name)).Nodup) :
     ∃ e : SEnum Val, Env.fromMetaHooks env rh r = enumHooks e ∧
       e.variants.map (fun v => (v.name, v.skip)) = vs.map (fun v => (v.name, v.skip)) ∧
-      ∀ m, InputParses e m → Demands e m ((Env.fromMetaHooks env rh r).fromMeta m) := by
+      ∀ m, Demands e m ((Env.fromMetaHooks env rh r).fromMeta m) := by
   obtain ⟨e, he, ⟨f, hf, hprops⟩, hplain, _, _⟩ := assembled_enum env rh r vs h
   have hmap : e.variants.map (fun v => (v.name, v.skip)) = vs.map (fun v => (v.name, v.skip)) := by
     rw [hf, List.map_map]
@@ -905,9 +888,9 @@ theorem assembled_meets_spec_partial (env : Env.T) (rh : String → Hooks Val) (
       rw [List.filter_map, List.map_map]; rfl
     rw [h1, hmap, ← h2]
     exact hnd
-  intro m hm
+  intro m
   rw [he]
-  exact fromMeta_meets_spec_partial e hu hplain m hm
+  exact fromMeta_meets_spec_partial e hu hplain m
 
 /-! ## 7. derive time: effective names, skip marks, the word variant -/
 section DeriveTime
@@ -1544,7 +1527,7 @@ theorem corpus_value_origin (env : Env.T) (fuel : Nat) (name key : String) (d : 
 /-- **C09, end to end**: a derived enum receiver of the corpus is `enumHooks` of an enum whose
     variants are, in order, the declared ones under their effective names with their skip marks, and
     — when the effective names of the variants not marked skip are pairwise distinct (D2) — it does
-    what the text demands on every input `InputParses` admits (D1) -/
+    what the text demands on every input -/
 theorem corpus_meets_spec_partial (env : Env.T) (fuel : Nat) (name key : String) (d : DeclD) (sp : DeclSpans)
     (vds : List VariantD) (r : RFromMeta)
     (hfind : env.decls.find? (·.1 == name) = some (key, .fromMeta, d, sp)) (hb : d.body = .enum vds)
@@ -1552,7 +1535,7 @@ theorem corpus_meets_spec_partial (env : Env.T) (fuel : Nat) (name key : String)
     (hnd : ((vds.filter (fun vd => !markedSkip vd)).filterMap (effName (caseRule d.attrs))).Nodup) :
     ∃ e : SEnum Val, Env.recvHooksF (fuel + 1) env name = enumHooks e ∧
       e.variants.map (fun v => (some v.name, v.skip)) = vds.map (fun vd => (effName (caseRule d.attrs) vd, markedSkip vd)) ∧
-      ∀ m, InputParses e m → Demands e m ((Env.recvHooksF (fuel + 1) env name).fromMeta m) := by
+      ∀ m, Demands e m ((Env.recvHooksF (fuel + 1) env name).fromMeta m) := by
   obtain ⟨rvs, hdata, _, hres, _⟩ := derived_enum_says env.oracle sp d vds r hb hder
   rw [selectable_names_eq hres] at hnd
   obtain ⟨e, he, hmap, hdem⟩ := assembled_meets_spec_partial env (Env.recvHooksF fuel env) r rvs hdata hnd
@@ -1569,9 +1552,9 @@ theorem corpus_meets_spec_partial (env : Env.T) (fuel : Nat) (name key : String)
     refine hres.map_eq _ _ ?_
     intro vd rv hr
     rw [hr.effName, hr.2.2.2.1]
-  · intro m hm
+  · intro m
     rw [hrecv]
-    exact hdem m hm
+    exact hdem m
 
 end DeriveTime
 
@@ -1620,8 +1603,8 @@ theorem dupE_not_demands : ¬ Demands dupE (strV "x") ((enumHooks dupE).fromMeta
     h.1 _ "B" dupE_B_selectable rfl
   cases h1
 
-/-- **D1** `enum E { Sv {}, Nt(Inner) }` with the nested list of the item failing to parse,
-    `e(sv(a = 1 2))` / `e(nt(a = 1 2))` -/
+/-- **D1 (repaired)** `enum E { Sv {}, Nt(Inner) }` with the nested list of the item failing to
+    parse, `e(sv(a = 1 2))` / `e(nt(a = 1 2))` -/
 def innerRecv : Hooks String := structHooks (.named (noFields "Inner")) none none
 def svE : SEnum String :=
   { variants := [⟨"sv", false, .struct (noFields "Sv")⟩,
@@ -1631,23 +1614,31 @@ def badList (name : String) : Meta :=
   .list (pth name) [] (some ("expected `,`", ⟨9, 10⟩)) (some ⟨5, 12⟩) "a = 1 2" ⟨2, 13⟩
 
 theorem svE_sv_selectable : Selectable svE "sv" ⟨"sv", false, .struct (noFields "Sv")⟩ := ⟨by simp [svE], rfl, rfl⟩
+theorem svE_unambiguous : Unambiguous svE := unambiguous_of_nodup svE (by decide)
+theorem svE_plain : PlainStructVariants svE := by
+  intro v hv s hk
+  simp only [svE, List.mem_cons, List.mem_nil_iff, or_false] at hv
+  rcases hv with rfl | rfl <;> cases hk
+  rfl
 
 /-- the newtype variant locates the syntax error under its name … -/
 theorem svE_nt : (enumHooks svE).fromMeta (lst [.item (badList "nt")]) = .err (.leaf (.custom "expected `,`") ["nt"] (some ⟨9, 10⟩)) := by
   rfl
-/-- … the struct variant does not -/
-theorem svE_sv : (enumHooks svE).fromMeta (lst [.item (badList "sv")]) = .err (.leaf (.custom "expected `,`") [] (some ⟨9, 10⟩)) := by
+/-- … and, since the repair, so does the struct variant: the error carries `["sv"]` -/
+theorem svE_sv : (enumHooks svE).fromMeta (lst [.item (badList "sv")]) = .err (.leaf (.custom "expected `,`") ["sv"] (some ⟨9, 10⟩)) := by
   rfl
-/-- what the text pins: the inner error, located under the variant's name -/
+/-- which is what the text pins: the inner error, located under the variant's name -/
 theorem svE_sv_pinned : itemResult ⟨"sv", false, .struct (noFields "Sv")⟩ (badList "sv")
     = some (.err (.leaf (.custom "expected `,`") ["sv"] (some ⟨9, 10⟩))) := rfl
+/-- the wrong-form errors of a struct variant (`e(sv)`) and of a unit variant (`e(alpha = …)`) stay
+    unlocated (an existing test of the library pins the message); the text only asks for "an error"
+    there, so the specification (`itemResult = none`) is indifferent -/
+example : (enumHooks svE).fromMeta (lst [.item (wd "sv")]) = .err (.leaf (.unexpectedFormat "non-list") [] (some ⟨0, 20⟩)) := rfl
 
-theorem svE_not_demands :
-    ¬ Demands svE (lst [.item (badList "sv")]) ((enumHooks svE).fromMeta (lst [.item (badList "sv")])) := by
-  intro h
-  rw [svE_sv] at h
-  have h1 := h.1 _ _ svE_sv_selectable svE_sv_pinned
-  simp only [Outcome.mapErr, Err.withSpan, Outcome.err.injEq, Err.leaf.injEq, List.nil_eq, reduceCtorEq, false_and, and_false] at h1
+/-- the behaviour now meets the specification on the former counterexample -/
+theorem svE_demands :
+    Demands svE (lst [.item (badList "sv")]) ((enumHooks svE).fromMeta (lst [.item (badList "sv")])) :=
+  fromMeta_meets_spec_partial svE svE_unambiguous svE_plain _
 
 /-! ### non-vacuity: an enum with every kind of variant meets every hypothesis, and every way of
     producing a value occurs -/
@@ -1664,13 +1655,8 @@ theorem okE_plain : PlainStructVariants okE := by
   simp only [okE, List.mem_cons, List.mem_nil_iff, or_false] at hv
   rcases hv with rfl | rfl | rfl | rfl <;> cases hk
   rfl
-theorem okE_parses (n : String) : InputParses okE (lst [.item (wd n)]) :=
-  inputParses_of okE _ (by intro p q items b ts' t' sp' ts t sp h; cases h)
-theorem okE_parses_list : InputParses okE (lst [.item (.list (pth "delta") [] none none "" ⟨2, 9⟩)]) :=
-  inputParses_of okE _ (by intro p q items b ts' t' sp' ts t sp h; cases h)
-
 example : Demands okE (lst [.item (wd "alpha")]) ((enumHooks okE).fromMeta (lst [.item (wd "alpha")])) :=
-  fromMeta_meets_spec_partial okE okE_unambiguous okE_plain _ (okE_parses "alpha")
+  fromMeta_meets_spec_partial okE okE_unambiguous okE_plain _
 example : (enumHooks okE).fromMeta (wd "e") = .ok "Alpha" := rfl
 example : (enumHooks okE).fromMeta (strV "alpha") = .ok "Alpha" := rfl
 example : (enumHooks okE).fromMeta (strV "gamma") = .ok "Gamma(dflt)" := rfl
@@ -1684,15 +1670,13 @@ example : Produces okE (wd "e") "Alpha" := .bareWord _ _ rfl
 example : Produces okE (strV "gamma") "Gamma(dflt)" :=
   .string _ _ _ _ (strLit "gamma") "gamma" ⟨"gamma", false, .newtype (fun _ => .ok "inner") (some "dflt") (fun s => "Gamma(" ++ s ++ ")")⟩ _
     rfl rfl ⟨by simp [okE], rfl, rfl⟩ rfl
-/-- the hypotheses of the discrepancy examples fail exactly where they should -/
+/-- the hypothesis of the discrepancy example fails exactly where it should -/
 example : ¬ Unambiguous dupE := by
   intro h
   have hA : Selectable dupE "x" ⟨"x", false, .struct (noFields "A")⟩ := ⟨by simp [dupE], rfl, rfl⟩
   have := h "x" _ _ hA dupE_B_selectable
   cases this
-example : ¬ InputParses svE (lst [.item (badList "sv")]) := by
-  intro h
-  exact h _ _ _ _ _ _ rfl svE_sv_selectable (noFields "Sv") _ _ _ _ _ _ rfl rfl
+
 
 /-! ### non-vacuity at derive time and for the whole pipeline -/
 section
@@ -1720,7 +1704,7 @@ theorem enumDecl_derives : ∃ r, deriveFromMeta {} {} enumDecl = .ok (.fromMeta
 example : ∃ e : SEnum Val, Env.recvHooksF 1 corpus "S" = enumHooks e ∧
     e.variants.map (fun v => (some v.name, v.skip))
       = [(some "x", false), (some "bb", true), (some "camel-name", false), (some "dd", false), (some "ee", false)] ∧
-    ∀ m, InputParses e m → Demands e m ((Env.recvHooksF 1 corpus "S").fromMeta m) := by
+    ∀ m, Demands e m ((Env.recvHooksF 1 corpus "S").fromMeta m) := by
   obtain ⟨r, hr⟩ := enumDecl_derives
   exact corpus_meets_spec_partial corpus 0 "S" "S" enumDecl {} enumVariants r rfl rfl hr (by decide)
 /-- … and the receiver answers: the bare word gives the word variant, `"x"` the renamed one, the
